@@ -57,7 +57,7 @@ fn apply(b: Builder, s: &Set) -> Builder {
             8 => b.isi_flag_axm_edit(*on),
             _ => b.isi_flag_req_join(*on),
         },
-        Set::Flags(k) => b.isi_flags(match k { 0 => IsiFlags::empty(), 1 => IsiFlags::all(), _ => IsiFlags::MCI | IsiFlags::CON }),
+        Set::Flags(k) => b.isi_flags(match k { 0 => IsiFlags::empty(), 1 => IsiFlags::all(), 2 => IsiFlags::MCI | IsiFlags::CON, _ => IsiFlags::from_bits_retain(0xf003 | (1 << 4) | (1 << 5)) }),
         Set::Prefix(k) => b.isi_prefix(match k { 0 => None, _ => Some('!') }),
         Set::Interval(k) => b.isi_interval(match k { 0 => None, 1 => Some(Duration::ZERO), _ => Some(Duration::from_secs(1)) }),
         Set::IName(k) => b.isi_iname(match k { 0 => None, _ => Some("x".to_string()) }),
@@ -98,7 +98,7 @@ struct Ref {
 fn ref_apply(r: &mut Ref, s: &Set) {
     match s {
         Set::Flag(i, on) => { let bit = 1u16 << FLAG_BITS[*i as usize]; if *on { r.flags |= bit } else { r.flags &= !bit } },
-        Set::Flags(k) => r.flags = match k { 0 => 0, 1 => 0b1111_1111_1100, _ => (1 << 5) | (1 << 6) },
+        Set::Flags(k) => r.flags = match k { 0 => 0, 1 => 0b1111_1111_1100, 2 => (1 << 5) | (1 << 6), _ => 0xf003 | (1 << 4) | (1 << 5) },
         Set::Prefix(k) => r.prefix = if *k == 0 { None } else { Some('!') },
         Set::Interval(k) => r.interval = match k { 0 => None, 1 => Some(Duration::ZERO), _ => Some(Duration::from_secs(1)) },
         Set::IName(k) => r.iname = if *k == 0 { None } else { Some("x".into()) },
@@ -132,7 +132,8 @@ fn alphabet(tier: Tier) -> Vec<Set> {
         v.push(Set::Flag(i, true));
         v.push(Set::Flag(i, false));
     }
-    for k in 0..3 { v.push(Set::Flags(k)); }
+    // (the fourth value carries the six bits InSim leaves unnamed: a wholesale replacement keeps them, a flag helper touches its own bit only)
+    for k in 0..4 { v.push(Set::Flags(k)); }
     for k in 0..2 { v.push(Set::Prefix(k)); }
     for k in 0..3 { v.push(Set::Interval(k)); }
     for k in 0..2 { v.push(Set::IName(k)); }
@@ -439,7 +440,7 @@ pub fn run(tier: Tier, replay: Option<String>) -> i32 {
     let _ = extra.insert("connect_cases".into(), json!(connects));
     crate::report::finish(crate::report::Outcome {
         property: "C18".into(), tier, level: "model_checking", acc,
-        rule: format!("all builder states reachable with a {}-setter alphabet ({} flag helpers on/off, wholesale flags x3, prefix x2, interval x3, iname x2, admin x2, reqi x3, tcp, udp without/with local address, compressed, uncompressed, relay); every transition replays the setter history on a fresh Builder and compares isi() with a reference builder; plus 288 connects (tcp / udp without / with local address x mode x blocking/tokio x 12 ISI configurations incl. a builder that was a relay builder before and every option unrelated to the ISI x size mode chosen first / last); every subset of the 8 unrelated options on 3 base builders against loopback peers; plus names and passwords of every length 0..=40 and with multi-byte characters / carets at every offset 0..=20", alpha.len(), if tier == Tier::Thorough { 10 } else { 5 }),
+        rule: format!("all builder states reachable with a {}-setter alphabet ({} flag helpers on/off, wholesale flags x4 (one with the unnamed bits set), prefix x2, interval x3, iname x2, admin x2, reqi x3, tcp, udp without/with local address, compressed, uncompressed, relay); every transition replays the setter history on a fresh Builder and compares isi() with a reference builder; plus 288 connects (tcp / udp without / with local address x mode x blocking/tokio x 12 ISI configurations incl. a builder that was a relay builder before and every option unrelated to the ISI x size mode chosen first / last); every subset of the 8 unrelated options on 3 base builders against loopback peers; plus names and passwords of every length 0..=40 and with multi-byte characters / carets at every offset 0..=20", alpha.len(), if tier == Tier::Thorough { 10 } else { 5 }),
         exhaustive: true, extra,
         assumptions: vec!["state key = Debug rendering of the real Builder + the reference ISI".into(), "UDP without a local address is expected to announce UDPPort 0 (LFS then replies to the source port)".into()],
         started,
